@@ -56,7 +56,20 @@ class Slot(object):
 def first_diff(a, b, path=""):
     """Human-sized description of the first difference between two JSON-like
     structures (None if equal)."""
-    if type(a) != type(b) and not (isinstance(a, (int, float)) and isinstance(b, (int, float)) and not isinstance(a, bool) and not isinstance(b, bool)):
+    def kind(x):
+        # which concrete mapping / sequence class holds the data is not a fact about the metadata
+        if isinstance(x, dict):
+            return "mapping"
+        if isinstance(x, (list, tuple)):
+            return "sequence"
+        if isinstance(x, bool):
+            return "bool"
+        if isinstance(x, (int, float)):
+            return "number"
+        if isinstance(x, str):
+            return "str"
+        return type(x).__name__
+    if kind(a) != kind(b):
         return "%s: type %s vs %s (%s vs %s)" % (path or "/", type(a).__name__, type(b).__name__, short(a, 60), short(b, 60))
     if isinstance(a, dict):
         for k in sorted(set(a) | set(b), key=repr):
@@ -167,6 +180,7 @@ class FormatMachine(MachineBase):
                 doc = json.loads(text)
             except ValueError as e:
                 raise Violation("C08", "C08.output_is_json", "not-json/%s" % self.FORMAT, {"error": str(e)[:100]})
+            text = text.rstrip("\n")          # a trailing newline is not part of the rule either
             want = json.dumps(doc, indent=4, sort_keys=True, separators=(",", ": "))
             # the property fixes key order and indentation, not whether non-ASCII characters are \u-escaped
             want2 = json.dumps(doc, indent=4, sort_keys=True, separators=(",", ": "), ensure_ascii=False)
